@@ -736,7 +736,7 @@ class OnionWorld:
             key = default_eccrypto.generate_key("curve25519").get_crypt_pk()
         elif how == "ephauth":
             # own ephemeral key with an auth that is correct for it: needs the initiator's public ephemeral from the create
-            create = self._find_create_for(self.orig_cid.get(seq, cid_real), d)
+            create = self._find_create_for(self.orig_cid.get(seq, cid_real), d, pl.identifier)
             crypto = TunnelCrypto()
             crypto.initialize(self.adv.my_peer.key)
             _shared, key, auth = crypto.generate_diffie_shared_secret(create)
@@ -750,16 +750,24 @@ class OnionWorld:
         d.data = self._cell_bytes(new_cid, True, data[28] != 0, message)
         return self.log("MangleAnswer", id=seq, how=how, cid=self.cid_map.get(new_cid, 0) if how == "cid" else 0)
 
-    def _find_create_for(self, cid_real, created_dg):
+    def _find_create_for(self, cid_real, created_dg, identifier=None):
+        """the create this created answers: same circuit id, sent to the answering node, from the node the answer goes to,
+        with the identifier the answer echoes (forged creates for the same id may be on the wire, too)"""
         import struct
         from ipv8.messaging.anonymization.payload import CreatePayload
         ov = self.ov[self.names[0]]
+        best = None
         for w in reversed(self.net.wire):
             dd = w.data
             if len(dd) > 30 and dd[22] == 0 and struct.unpack_from("!I", dd, 23)[0] == cid_real and dd[27] != 0 and dd[29] == 2 \
                     and w.dst == created_dg.src:
                 pl, _ = ov.serializer.unpack_serializable(CreatePayload, struct.pack("!I", cid_real) + dd[30:])
-                return pl.key
+                if (identifier is None or pl.identifier == identifier) and w.src == created_dg.dst:
+                    return pl.key
+                if best is None and (identifier is None or pl.identifier == identifier):
+                    best = pl.key
+        if best is not None:
+            return best
         raise KeyError("no create seen for this created")
 
     # -- timers
